@@ -133,7 +133,10 @@ class Optimizer:
                     expr = self._run_fixed_point(expr, step, rules, name, debug=debug)
                 else:
                     expr = self._run_once(expr, step, rules, name, debug=debug)
-                rules[name].expression = expr
+                if expr is not rule.expression:
+                    # Replace the rule, don't rewrite it: the `Rule` objects may
+                    # be shared with a parser built from the same mapping.
+                    rules[name] = rule.with_children([expr])
 
         return rules
 
